@@ -1235,7 +1235,8 @@ pub fn gen_plan(focus: &str, seed: u64, thorough: bool, pool: &[Pos]) -> EngineP
     let mut cur = CurPos::startpos();
     let mut have_best = false;
     for ci in 0..n_cycles {
-        let pos = match rng.below(10) {
+        let pos_draw = if focus == "C13" && !fault_free && rng.chance(1, 2) { 3 } else { rng.below(10) };
+        let pos = match pos_draw {
             0 if ci > 0 => PosSpec::Keep,
             1 | 2 if have_best => PosSpec::Follow { reply: rng.below(64) as u32 },
             3 if !fault_free => PosSpec::Broken { line: broken_position(&mut rng, &cur) },
